@@ -79,10 +79,14 @@ def run(tier):
             accepted.append(o)
     cov, covstats = stream.cover_histories(pairs=False)
     base = rnd.sample(cov, min(len(cov), 250 if tier == "quick" else 3000))
+    # (combined diffs with conflict regions, plain diff -u streams and submodule sections as well)
+    for cfg, mod in (("Cover_Stream_cc", "Cover_Stream"), ("Cover_DiffU_bare", "Cover_DiffU"), ("Cover_Stream_sub", "Cover_Stream")):
+        more, _ = stream.cover_histories(pairs=False, cfg=cfg, module=mod)
+        base += rnd.sample(more, min(len(more), 120 if tier == "quick" else 1000))
     jobs = []
     # (a) model histories with one hostile line injected at a random position, every hostile class x option sets
     for i, hline in enumerate(HOSTILE):
-        for rep in range(3 if tier == "quick" else 12):
+        for rep in range(5 if tier == "quick" else 16):
             h = rnd.choice(base)
             data, texts = gitskin.concretise(h, payload=lambda k, c: f"tokZ{k}Z 世界 w\t{k}")
             lines = [t.encode() for t in texts]
@@ -139,7 +143,7 @@ def run(tier):
         lines = []
         for h in parts:
             lines += [t.encode() for t in gitskin.concretise(h, payload=lambda k, c: f"tokZ{k}Z é w")[1]]
-        hl = r2.choice(extra_hostile + HOSTILE[:40])
+        hl = r2.choice(extra_hostile + HOSTILE)
         lines.insert(r2.randrange(len(lines) + 1), hl)
         if r2.random() < 0.4:
             lines = lines[:r2.randrange(1, len(lines) + 1)]       # the producer stops anywhere
